@@ -84,7 +84,9 @@ class _Blank(ast.NodeTransformer):
 def _shape(expr: Optional[ast.AST], names: set[str]) -> str:
     if expr is None:
         return "-"
-    return ast.unparse(_Blank(names).visit(copy.deepcopy(expr)))
+    from .nform import sort_operands
+
+    return ast.unparse(sort_operands(_Blank(names).visit(copy.deepcopy(expr))))
 
 
 def _targets(target: ast.AST, path: str = "") -> list[tuple[str, str]]:
